@@ -511,3 +511,52 @@ func (w *World) callMayWriteField(c *ssa.CallCommon, fld *types.Var) bool {
 	// pointers handed to them; cgo calls are handled by the contract table (engine X).
 	return false
 }
+
+// factsPerPred returns, for every predecessor edge p -> b, the facts that hold when control takes
+// that edge (facts at p's terminator plus p's own branch outcome).  A property that holds under
+// every edge holds at b even if no single branch dominates b (join of disjoint cases).
+func (w *World) factsPerPred(b *ssa.BasicBlock) [][]Fact {
+	var out [][]Fact
+	for _, p := range b.Preds {
+		last := p.Instrs[len(p.Instrs)-1]
+		fs := w.factsAt(last)
+		if ifi, ok := last.(*ssa.If); ok && len(p.Succs) == 2 && p.Succs[0] != p.Succs[1] {
+			if p.Succs[0] == b {
+				condFacts(ifi.Cond, true, ifi, &fs)
+			} else {
+				condFacts(ifi.Cond, false, ifi, &fs)
+			}
+		}
+		out = append(out, fs)
+	}
+	return out
+}
+
+// holdsOnAllPaths: pred(facts) holds at `at` directly, or on every incoming edge of its block
+// (recursively up to depth) when the block is a join.
+func (w *World) holdsOnAllPaths(at ssa.Instruction, pred func([]Fact) bool, depth int) bool {
+	if pred(w.factsAt(at)) {
+		return true
+	}
+	if depth == 0 {
+		return false
+	}
+	b := at.Block()
+	if len(b.Preds) < 2 {
+		if len(b.Preds) == 1 {
+			p := b.Preds[0]
+			return w.holdsOnAllPaths(p.Instrs[len(p.Instrs)-1], pred, depth-1)
+		}
+		return false
+	}
+	for i, fs := range w.factsPerPred(b) {
+		if pred(fs) {
+			continue
+		}
+		p := b.Preds[i]
+		if !w.holdsOnAllPaths(p.Instrs[len(p.Instrs)-1], pred, depth-1) {
+			return false
+		}
+	}
+	return true
+}
